@@ -88,10 +88,20 @@ class World:
         fr = self.resolve_call(fi, call)
         if fr is None or fr.module != 'functions' or fr.name not in self.handlers:
             return None
-        if len(call.args) != 3 or call.keywords:
+        callee = self.handlers[fr.name]
+        if any(isinstance(a, ast.Starred) for a in call.args) or any(k.arg is None for k in call.keywords):
             raise AnalysisError(f'{fi.key}: handler {fr.name} called with an unrecognised '
                                 f'argument shape at line {call.lineno}')
-        return self.handlers[fr.name], call.args[0], call.args[1], call.args[2]
+        # bind the (tape, stack, cache) parameters by position or by keyword; further (optional)
+        # parameters of the callee are a matter for the rules that read the callee's body
+        bound = dict(zip(callee.params, call.args))
+        for k in call.keywords:
+            bound[k.arg] = k.value
+        try:
+            return callee, bound[callee.params[0]], bound[callee.params[1]], bound[callee.params[2]]
+        except (KeyError, IndexError):
+            raise AnalysisError(f'{fi.key}: handler {fr.name} called with an unrecognised '
+                                f'argument shape at line {call.lineno}')
 
 
 def events(node_ast: ast.AST):
@@ -485,4 +495,7 @@ def _call_role(world: World, fi: FunctionInfo, call: ast.Call, argidx: int) -> s
         return 'plugin'
     if name == 'set_tape_flags':
         return 'exec'
+    if isinstance(call.func, ast.Attribute) and isinstance(call.func.value, ast.Attribute) and \
+            call.func.value.attr == 'definitions' and call.func.attr in ('setdefault', '__setitem__'):
+        return 'definition'
     return 'other'
